@@ -22,10 +22,13 @@ TECHNIQUE = "symbolic index pairing on loop bodies (F3), polarity/sibling agreem
 
 
 def vr(v):
+    """text of a value; the numbering of names made unknown by an earlier loop (TAB'3) is dropped: the tables are filled by
+    the loops that precede their use"""
+    import re
     if isinstance(v, Rat):
         a = v.single_atom()
-        return a if a is not None else repr(v)
-    return repr(v)
+        return re.sub(r"'\d+", '', a if a is not None else repr(v))
+    return re.sub(r"'\d+", '', repr(v))
 
 
 def _strip_logging(stmts):
@@ -122,6 +125,12 @@ def rule_I(ctx):
         raise shape_error('forward step does not call Qlog', f.loc(lm))
     every = None
     for o in outs:
+        if not any(e.kind == 'call' and e.name == 'Qlog' for e in o.state.events):
+            ctx.violation('C09.B', f, 'every candidate of epoch k-1 is compared as predecessor: no path through the predecessor loop skips the comparison',
+                          {'conditions of the skipping path': [repr(c) for c, _ in o.state.conds], 'leaves by': o.kind,
+                           'why': 'the cost through a skipped predecessor may still be the smallest (the transition term is not known to be non-negative)'},
+                          node=o.node if o.node is not None else lm, key='skip-pred')
+            continue
         names = {e.name for e in o.state.events if e.kind == 'assign'}
         every = names if every is None else (every & names)
     upd_paths = [(o, {n: e for n, e in ch.items() if n not in every}) for o, ch in upd_paths]
@@ -245,7 +254,14 @@ def rule_I(ctx):
         raise shape_error('HMM.estimate: initialisation of the first epoch not found', f.loc())
     il = init_loops[0]
     wi = Walker(f, loop_mode='skip')
-    io = [o for o in wi.run(il.body, State({il.target.id: Rat.atom(il.target.id)})) if o.kind == 'fall']
+    sti = wi.state_before(body, il) or State()
+    sti.events = []
+    sti.conds = []
+    sti.env[il.target.id] = Rat.atom(il.target.id)
+    for v_ in names_stored(il.body):
+        sti.env[v_] = Rat.atom(v_ + '@')
+    ri = wi.range_info(il.iter, sti.fork())
+    io = [o for o in wi.run(il.body, sti) if o.kind == 'fall']
     pc = [e for e in io[0].state.events if e.kind == 'call' and e.name == 'Plog']
     stv = [e for e in io[0].state.events if e.kind == 'store' and isinstance(e.value, Rat) and pc and pc[0].value in e.value.atoms()]
     okI = len(pc) == 1 and len(stv) == 1
@@ -259,7 +275,6 @@ def rule_I(ctx):
         okI = okI and wi.rel.is_zero(stv[0].value - Rat.atom(pc[0].value) * Rat.const(sign_i or 0))
     ctx.check(okI, 'C09.I', f, 'first epoch: cost of candidate l = (+/-) log-emission of (state l of epoch 0, observation 0, epoch 0)',
               witness={'stores': [repr(e) for e in stv], 'call': [vr(x) for x in pc[0].args] if pc else None}, node=il, key='init')
-    ri = wi.range_info(il.iter, State())
     ctx.check(ri is not None and wi.rel.is_zero(ri[0]) and re.match(r'^len\(\w+\[0\]\)$', vr(ri[1])) is not None, 'C09.B', f,
               'every candidate of the first epoch is initialised', witness={'range': [vr(x) for x in ri] if ri else None},
               node=il, key='init-range')
@@ -282,16 +297,16 @@ def rule_I(ctx):
         r = wr.range_info(rk, State())
         okk = wr.rel.is_zero(r[0] - Rat.const(1)) and vr(r[1]) in ('N', 'len(%s)' % track, '%s.size()' % track)
     if rl is not None:
-        r = wr.range_info(rl, State({kv: Rat.atom(kv)}))
+        r = w.range_info(rl, stl.fork())
         okl = wr.rel.is_zero(r[0]) and re.match(r'^len\(\w+\[%s\]\)$' % kv, vr(r[1])) is not None
-    r = wr.range_info(lm.iter, State({kv: Rat.atom(kv)}))
+    r = w.range_info(lm.iter, stm.fork())
     if r is not None:
         okm = wr.rel.is_zero(r[0]) and re.match(r'^len\(\w+\[%s\]\)$' % re.escape(km1), vr(r[1])) is not None and \
             wr.rel.is_zero(r[2] - Rat.const(1))
     ctx.check(okk, 'C09.B', f, 'epochs 1 .. N-1 are all processed', witness={'range': unparse(rk) if rk else None}, node=lk, key='rk')
     ctx.check(okl, 'C09.B', f, 'every candidate of epoch k is filled', witness={'range': unparse(rl) if rl else None}, node=ll, key='rl')
     ctx.check(okm, 'C09.B', f, 'every candidate of epoch k-1 is considered as predecessor',
-              witness={'range': unparse(lm.iter)}, node=lm, key='rm')
+              witness={'range': [vr(x) for x in r] if r else unparse(lm.iter)}, node=lm, key='rm')
     ctx.extra['final_selection'] = final[1]
 
 
@@ -323,7 +338,11 @@ def _final_selection(ctx, f, body, vt):
     for s in body:
         if isinstance(s, ast.Assign) and isinstance(s.value, ast.Call):
             fn = unparse(s.value.func)
-            arg = unparse(s.value.args[0]) if s.value.args else ''
+            arg = ''
+            if s.value.args and fn in ('np.argmin', 'np.argmax', 'numpy.argmin', 'numpy.argmax'):
+                w0 = Walker(f, loop_mode='skip')
+                st0 = w0.state_before(body, s) or State()
+                arg = vr(w0.ex(s.value.args[0], st0))
             if fn in ('np.argmin', 'np.argmax', 'numpy.argmin', 'numpy.argmax') and re.match(r'^\w+\[-1\]$', arg):
                 ctx.ok('C09.R', f, 'the final state is chosen by %s over the whole last column' % fn, node=s)
                 return ('min' if fn.endswith('argmin') else 'max', unparse(s))
@@ -408,16 +427,20 @@ def rule_R(ctx):
               witness={'range': [vr(x) for x in r] if r else None}, node=bl, key='range')
     kv = bl.target.id
     assigned = sorted(names_stored(bl.body))
-    st = State({kv: Rat.atom(kv), f.params[4]: Rat.const(1)})       # mode = MODE_OBS_AS_2D_POSITIONS
+    st = w.state_before(body, bl) or State()
+    st.events = []
+    st.conds = []
+    st.env.update({kv: Rat.atom(kv), f.params[4]: Rat.const(1)})       # mode = MODE_OBS_AS_2D_POSITIONS
     for v in assigned:
         st.env[v] = Rat.atom(v + '@')
     outs = [o for o in w.run(bl.body, st) if o.kind == 'fall']
     if len(outs) != 1:
         raise shape_error('backward loop body is not single-path for a non-position mode', f.loc(bl))
     o = outs[0]
-    if len(assigned) != 1:
-        raise shape_error('backward loop: expected one running index, found %s' % assigned, f.loc(bl))
-    idk = assigned[0]
+    running = Walker.carried(outs, assigned)
+    if len(running) != 1:
+        raise shape_error('backward loop: expected one running index, found %s' % running, f.loc(bl))
+    idk = running[0]
     sets = [e for e in o.state.events if e.kind == 'call' and e.name == 'setObsAnalyticalFeature']
     nxt = [e for e in o.state.events if e.kind == 'assign' and e.name == idk]
     import re
